@@ -60,6 +60,11 @@ def check(run):
     R.rule('C14.payload', 'the Pong leaves as built - same payload, never through the compressor (RSV1 only on data frames '
                           'sent compressed)', 2)
     C03.rsv1gate(R, RID='C14.payload')
+    with R.as_rule('C14.payload'):
+        C03.lenenc(R)        # ... and with the shortest length form: a 125-byte Pong is a 7-bit-length control frame
+        C03.flags(R)
+    with R.as_rule('C14.lazy'):
+        C05.awaitables_fresh(R, 'C14.lazy')     # a header cut across two reads does not derail the frames (Pings) after it
     C08.onlyclose(R, RID='C14.open')
     before(R)
     branch(R)
